@@ -57,10 +57,12 @@ func (v *View) Get(ctx context.Context, key string) (*Entry, error) {
 	if entry == nil {
 		return nil, nil
 	}
-	entry.Key = v.truncateKey(entry.Key)
 
+	// Do not modify the entry we were handed: the layer below may have
+	// returned an object it still owns (the read cache returns its stored
+	// *Entry), so rewriting Key in place would corrupt it.
 	return &Entry{
-		Key:   entry.Key,
+		Key:   v.truncateKey(entry.Key),
 		Value: entry.Value,
 	}, nil
 }
